@@ -37,18 +37,62 @@ NOT_APPLICABLE = [
 
 PLAN = {}
 
-PLAN["C13"] = {
-    "level": "model_checking",
-    "quick": ["allocb_q_", "alloc1_q_", "allocf_q_", "allocm_q_", "rm_q_"],
-    "thorough": ["allocb_t_", "alloc1_t_", "allocf_t_", "allocm_t_", "rm_t_"],
-    "bounds": {"quick": "slots<=3, free<=2, batch<=2", "thorough": "slots<=4, free<=4, batch<=3"},
-    "outside": ["generation counter wrap at 2^64"],
-    "stubs": [],
-    "assumptions": [],
-    "explanation": "one-step induction over the representation invariants AllocInv/LinkInv/TableInv",
-    "level_text": "Bounded model checking of the compiled allocator/archetype/table code: from every pre-state of a small concrete shape satisfying the representation invariants, one real operation with symbolic arguments re-establishes the invariants (one-step induction covers histories of any length within the shapes).",
-    "level_note": KANI_NOTE,
+ARCH_NOTE = (
+    " Pre-states are built directly (Archetype::from_raw_parts, Allocator struct literal) from symbolic contents under the "
+    "representation invariants ArchInv/AllocInv/LinkInv; shapes (registry, component subset, row count, capacity, slot count, "
+    "free-list length) are concrete per harness instance."
+)
+
+PLAN["C01"] = {
+    "quick": ["rm_q_", "push_q_", "ext_q_", "shape_q_", "set_q_", "clear_q_"],
+    "thorough": ["rm_t_", "push_t_", "ext_t_", "shape_t_", "set_t_", "clear_t_", "grow_"],
+    "bounds": {"quick": "rows<=3 per archetype, slots<=4, batch<=2, registries (A,B),(A,Z,D),(D,B,W,A)", "thorough": "rows<=3, slots<=4, batch<=3, capacity both exact (growth path) and spare"},
+    "outside": ["histories only through the one-step inductive argument", "World-level glue beyond the tiny shapes", "worlds larger than the shapes"],
+    "level_text": "Bounded model checking of the real archetype/allocator operations against a plain-array reference model: effect on the target entity and frame (every other entity keeps its identifier, component set and values) for every symbolic target row, payload and slot assignment within the shapes.",
+    "level_note": KANI_NOTE + ARCH_NOTE,
 }
+
+PLAN["C02"] = {
+    "quick": ["allocb_q_", "alloc1_q_", "allocf_q_", "allocm_q_", "rm_q_"],
+    "thorough": ["allocb_t_", "alloc1_t_", "allocf_t_", "allocm_t_", "rm_t_", "clear_"],
+    "bounds": {"quick": "slots<=3, free<=2, batch<=2", "thorough": "slots<=4, free<=4, batch<=3; batch <,=,> free list all instantiated"},
+    "outside": ["generation counter wrap at 2^64 (generations assumed < u64::MAX)"],
+    "level_text": "Bounded model checking, one-step inductive: from any allocator state of the shape, one real operation; every returned identifier has a generation above everything ever issued for its slot (or a fresh index), an arbitrary probe identifier (any index, any generation, i.e. every stale identifier, not only the latest) keeps resolving iff it was live and is not the target, and never starts resolving unless it was just returned.",
+    "level_note": KANI_NOTE + " Ghost argument: issued generations of a slot never exceed its current generation (DESIGN.md §2).",
+}
+
+PLAN["C04"] = {
+    "quick": ["rm_q_azd", "shape_q_rm_d", "set_q_d", "clear_q_", "push_q_azd"],
+    "thorough": ["rm_t_dbwa", "shape_t_", "set_t_", "clear_t_", "push_t_dbwa", "ext_", "grow_"],
+    "bounds": {"quick": "rows<=3, one ledger column", "thorough": "rows<=3, <=2 archetypes"},
+    "outside": ["panics (C17)", "resources (dropped by ordinary Rust ownership of the resource list)"],
+    "level_text": "Bounded model checking with a per-value drop ledger: immediately after each real operation exactly the values it is specified to destroy have been dropped once; after dropping the structure every value ever minted has been dropped exactly once.",
+    "level_note": KANI_NOTE + ARCH_NOTE,
+}
+
+PLAN["C05"] = {
+    "quick": ["grow_q_", "ext_q_", "shape_q_", "push_q_ab_n1_grow", "rm_q_ab"],
+    "thorough": ["grow_t_", "ext_t_", "shape_t_", "push_", "rm_", "set_", "clear_", "alloc"],
+    "bounds": {"quick": "as C01", "thorough": "as C01"},
+    "outside": ["alignment of deallocation (not modelled by Kani)", "allocation failure", "hashbrown's own unsafe code", "real threads"],
+    "level_text": "CBMC's memory model over the compiled code: every dereference, bounds, double free, dealloc/realloc size and arithmetic-overflow check Kani inserts is discharged for all symbolic inputs of each harness; the vocabulary mixes a zero-sized, a 1-byte, a 4-byte and a 16-aligned component so that a wrong column/length/capacity changes an object size or access width.",
+    "level_note": KANI_NOTE + ARCH_NOTE,
+}
+
+PLAN["C13"] = {
+    "quick": ["allocb_q_", "alloc1_q_", "allocf_q_", "rm_q_", "push_q_", "ext_q_", "shape_q_", "clear_q_"],
+    "thorough": ["allocb_t_", "alloc1_t_", "allocf_t_", "allocm_", "rm_t_", "push_t_", "ext_t_", "shape_t_", "clear_t_"],
+    "bounds": {"quick": "slots<=3, free<=2, batch<=2, rows<=3", "thorough": "slots<=4, free<=4, batch<=3, rows<=3"},
+    "outside": ["generation counter wrap at 2^64"],
+    "level_text": "Bounded model checking, one-step induction over the representation invariants: from every pre-state of a small concrete shape satisfying AllocInv/ArchInv/LinkInv, one real operation with symbolic arguments re-establishes them (active+free = slots, every row reachable through exactly one identifier, nothing lost or duplicated).",
+    "level_note": KANI_NOTE + ARCH_NOTE,
+}
+
+for _p in PLAN.values():
+    _p.setdefault("level", "model_checking")
+    _p.setdefault("stubs", [])
+    _p.setdefault("assumptions", [])
+    _p.setdefault("explanation", "")
 
 _claimed = set(PLAN)
 for _p in ["C01", "C02", "C03", "C04", "C05", "C06", "C07", "C08", "C09", "C10", "C11", "C12", "C15", "C16", "C18"]:
